@@ -4,7 +4,7 @@ spec/Rpc.tla holds, per RPC, the boundary classes of every request field, the
 all-valid request, and the two-line contract.  TLC enumerates the request
 vectors (quick: every single-field deviation + the class table from which the
 pairwise rows are computed here; thorough: additionally the full product over
-every core field set = the full product of 23 of the 25 RPCs).  The Go harness
+every core field set = the full product of 22 of the 25 RPCs).  The Go harness
 harness/cmd/rpcfuzz sends every vector to a CHILD PROCESS running the
 production gRPC service (its interceptor chain included) and records
 outcome / status / table-dump difference; TLC (spec/RpcCheck.tla) then
@@ -22,7 +22,10 @@ ASSUMPTIONS = [
     "every vector meets the same fixed pre-state (2 topics, 3 subscriptions: dead-letter+retry / ordered+filtered / plain, 6 messages, "
     "outstanding, acknowledged and foreign ack ids, 1 snapshot); the pristine rows are copied back whenever a request changed the tables",
     "boundary classes and the all-valid request of every RPC are those of spec/Rpc.tla; one concrete representative per class",
-    "only the first message of a StreamingPull is varied; an established stream is closed by the client and drained before the tables are read",
+    "only the first message of a StreamingPull is varied, plus how long the session is kept (first answer only / ~300 ms reading without acking / "
+    "acking what arrives); an established stream is closed by the client and drained before the tables are read; a child exit during or within "
+    "100 ms after the session counts as a crash of that vector",
+    "StreamingPull byte limits are relative to the known backlog of the valid subscription (payloads of 1, 2, 1 bytes)",
     "deadline 5 s per request; 'wedged' = no status within the deadline (long-poll RPCs: and a probe is not answered either), or probes fail afterwards",
 ]
 
@@ -143,7 +146,7 @@ def _run(ctx, replay):
             add(v, "replay")
     else:
         for v in _tagged(out, "VEC"):
-            add(v, "tlc-oneoff")
+            add(v, "tlc-oneoff+quickcore")
         tlc_states += n_oneoff
         wide = {r for r, ks in table["core"].items() if not (len(ks) == 1 and set(ks[0]) == set(table["classes"][r]))}
         if tier == "thorough":
@@ -254,7 +257,7 @@ def _run(ctx, replay):
         "exhaustive": tier == "thorough" and not replay,
         "exhaustive_scope": ("full product of the boundary classes for %d of %d RPCs; for %s the full product over each core field group of Rpc!WideCore "
                              "plus every 3-way class combination of all fields" % (len(table["classes"]) - len(wide), len(table["classes"]), ", ".join(sorted(wide))))
-        if tier == "thorough" and not replay else "every single-field deviation and every pair of field classes of every RPC",
+        if tier == "thorough" and not replay else "every single-field deviation and every pair of field classes of every RPC, plus the Rpc!QuickCore products",
         "vector_sources": dict(origin),
         "tlc_enumerated_states": tlc_states,
         "rpcs": len(per_rpc),
